@@ -1,12 +1,534 @@
-//! C09: harness module (stub — not built yet)
-#![allow(dead_code, unused_imports, unused_variables)]
+//! C09 (and, through `c13.rs`, C13): module shutdown / restart and panic containment in the net
+//! kernel.
+//!
+//! Every case is one real `des` network simulation (`Sim` builder, `async` feature): 2-5 scripted
+//! modules, connected by gate chains (directly or THROUGH two transit gates owned by a third
+//! module, with or without a channel on one of the connections).  Module behaviour is a script
+//! that the Lean model `Net` (lean/Desverif/Model/Net.lean) interprets as well; every callback,
+//! task resumption, `reset` call, send and log action appends one observation line to a global
+//! log, and the result of `Runtime::run` (Ok / the list of failed module paths) is appended.
+//!
+//! Script lines (objects are named by tags, any line may be deleted):
+//!   mod <M> stages=<n> catch=<0|1>          a module (creation order = line order); catch=1: the
+//!                                           stereotype declares panics as caught
+//!   link <A> <B> via=<T|-> chan=<-|pos:lat:tx:q|d>
+//!                                           gate chain A.o_B -> [T.ti_A_B -> T.to_A_B ->] B.i_A;
+//!                                           channel on connection number <pos> (0-based) with
+//!                                           latency <lat> ns, transmission time <tx> ns
+//!                                           (0 | 4 | 1000), q = Queue(None), d = Drop
+//!   act <M> <hook> <key> <action...>        appends one action to the list of (M, hook, key)
+//!        hook = msg (key = message id) | start (key = stage) | end (key = 0) | task (key = task tag)
+//!        action = send <dst> <delay> <id>   send / send_in over the gate chain to <dst>
+//!               | sched <delay> <id>        schedule_in on the own module
+//!               | spawn <tag> <sleep> [join]  tokio::spawn: sleep <sleep> ns (>= 1), log, then the
+//!                                           actions of (M, task, tag); `join`: registered with try_join
+//!               | shutdown | restart_in <d> | restart_at <t>
+//!               | panic | log <n>
+//!   init <M> <id> <time>                    message injected before the run (handle_message_on)
+//! Transcript: the same lines (link lines annotated ` -> tx=<measured>`), then
+//!   obs <M> <kind> <a> <b> <ns>             kind = msg id serial | start stage - | end - - | reset - - |
+//!                                           task tag - | snd id serial | sch id serial | log n - |
+//!                                           dwn <restart time|-> - (a shutdown request) |
+//!                                           pan <0 callback|1 task> <1 if try_join'ed> (just before a panic)
+//!   res ok | res err <panic:M|join:M|other>... | res crash <text>     result of run()
+//!   glob ctx=<free|held>                    try_current() after the run
+//! (`c13 exec` runs the simulation a second time in the same process: `obs2` / `res2` / `glob2`.)
+//! Every message carries a serial number (header.kind) = sender index * 4096 + the sender's send
+//! counter (sender 15 = injected before the run).
 use crate::rng::Rng;
-use crate::util::{cases, guarded, hval};
+use crate::util::{cases, guarded};
+use des::net::{JoinError, PanicError};
+use des::prelude::*;
+use std::collections::HashMap;
+use std::fmt::Write;
+use std::sync::atomic::{AtomicU16, Ordering};
+use std::sync::{Arc, Mutex};
 
-pub fn gen(_seed: u64, _count: usize, _thorough: bool) -> String {
-    String::new()
+// ------------------------------------------------------------------------------------------ script
+
+#[derive(Clone, Debug)]
+pub(crate) enum Action {
+    Send(String, u64, u16),
+    Sched(u64, u16),
+    Spawn(u64, u64, bool),
+    Shutdown,
+    RestartIn(u64),
+    RestartAt(u64),
+    Panic,
+    Log(u64),
 }
 
-pub fn exec(_input: &str) -> String {
-    String::new()
+#[derive(Clone, Debug, Default)]
+pub(crate) struct ModSpec {
+    tag: String,
+    idx: usize,
+    stages: usize,
+    catch: bool,
+    acts: HashMap<(String, u64), Vec<Action>>,
+    links: Vec<String>,
+}
+
+#[derive(Clone, Debug)]
+pub(crate) struct Chan {
+    pos: usize,
+    lat: u64,
+    tx: u64,
+    queue: bool,
+}
+
+#[derive(Clone, Debug)]
+pub(crate) struct Link {
+    a: String,
+    b: String,
+    via: Option<String>,
+    chan: Option<Chan>,
+}
+
+#[derive(Default)]
+pub(crate) struct Script {
+    mods: Vec<ModSpec>,
+    links: Vec<Link>,
+    inits: Vec<(String, u16, u64)>,
+}
+
+fn parse_action(t: &[&str], mods: &[String]) -> Option<Action> {
+    match t {
+        ["send", dst, delay, id] => {
+            if !mods.iter().any(|m| m == dst) {
+                return None;
+            }
+            Some(Action::Send(dst.to_string(), delay.parse().ok()?, id.parse().ok()?))
+        }
+        ["sched", delay, id] => Some(Action::Sched(delay.parse().ok()?, id.parse().ok()?)),
+        ["spawn", tag, sleep] => Some(Action::Spawn(tag.parse().ok()?, sleep.parse::<u64>().ok()?.max(1), false)),
+        ["spawn", tag, sleep, "join"] => Some(Action::Spawn(tag.parse().ok()?, sleep.parse::<u64>().ok()?.max(1), true)),
+        ["shutdown"] => Some(Action::Shutdown),
+        ["restart_in", d] => Some(Action::RestartIn(d.parse().ok()?)),
+        ["restart_at", t] => Some(Action::RestartAt(t.parse().ok()?)),
+        ["panic"] => Some(Action::Panic),
+        ["log", n] => Some(Action::Log(n.parse().ok()?)),
+        _ => None,
+    }
+}
+
+fn bitrate_of(tx: u64) -> Option<usize> {
+    match tx {
+        0 => Some(0),
+        4 => Some(128_000_000_000),
+        1000 => Some(512_000_000),
+        _ => None,
+    }
+}
+
+pub(crate) fn parse(body: &[String]) -> Script {
+    let mut sc = Script::default();
+    for line in body {
+        let t: Vec<&str> = line.split_whitespace().collect();
+        if let ["mod", m, rest @ ..] = t.as_slice() {
+            if sc.mods.iter().any(|x| x.tag == *m) {
+                continue;
+            }
+            let mut ms = ModSpec { tag: m.to_string(), idx: sc.mods.len(), stages: 1, ..Default::default() };
+            for kv in rest {
+                if let Some(v) = kv.strip_prefix("stages=") {
+                    ms.stages = v.parse().unwrap_or(1);
+                }
+                if let Some(v) = kv.strip_prefix("catch=") {
+                    ms.catch = v == "1";
+                }
+            }
+            sc.mods.push(ms);
+        }
+    }
+    let modtags: Vec<String> = sc.mods.iter().map(|m| m.tag.clone()).collect();
+    let known = |m: &str| modtags.iter().any(|x| x == m);
+    for line in body {
+        let t: Vec<&str> = line.split_whitespace().collect();
+        match t.as_slice() {
+            ["link", a, b, via, chan] => {
+                if !known(a) || !known(b) || a == b || sc.links.iter().any(|l| l.a == *a && l.b == *b) {
+                    continue;
+                }
+                let Some(via) = via.strip_prefix("via=") else { continue };
+                let Some(chan) = chan.strip_prefix("chan=") else { continue };
+                let via = if via == "-" {
+                    None
+                } else if known(via) && via != *a && via != *b {
+                    Some(via.to_string())
+                } else {
+                    continue;
+                };
+                let nconn = if via.is_some() { 3 } else { 1 };
+                let chan = if chan == "-" {
+                    None
+                } else {
+                    let p: Vec<&str> = chan.split(':').collect();
+                    let [pos, lat, tx, pol] = p.as_slice() else { continue };
+                    let (Ok(pos), Ok(lat), Ok(tx)) = (pos.parse::<usize>(), lat.parse::<u64>(), tx.parse::<u64>()) else { continue };
+                    if pos >= nconn || bitrate_of(tx).is_none() || (*pol != "q" && *pol != "d") {
+                        continue;
+                    }
+                    Some(Chan { pos, lat, tx, queue: *pol == "q" })
+                };
+                sc.links.push(Link { a: a.to_string(), b: b.to_string(), via, chan });
+            }
+            ["act", m, hook, key, rest @ ..] => {
+                let Ok(key) = key.parse::<u64>() else { continue };
+                if !["msg", "start", "end", "task"].contains(hook) {
+                    continue;
+                }
+                let Some(a) = parse_action(rest, &modtags) else { continue };
+                if let Some(ms) = sc.mods.iter_mut().find(|x| x.tag == *m) {
+                    ms.acts.entry((hook.to_string(), key)).or_default().push(a);
+                }
+            }
+            ["init", m, id, time] => {
+                let (Ok(id), Ok(time)) = (id.parse::<u16>(), time.parse::<u64>()) else { continue };
+                if known(m) {
+                    sc.inits.push((m.to_string(), id, time));
+                }
+            }
+            _ => {}
+        }
+    }
+    // a send to a module without a link does not exist: both sides skip it
+    let links: Vec<(String, String)> = sc.links.iter().map(|l| (l.a.clone(), l.b.clone())).collect();
+    for m in sc.mods.iter_mut() {
+        m.links = links.iter().filter(|l| l.0 == m.tag).map(|l| l.1.clone()).collect();
+    }
+    sc
+}
+
+// ------------------------------------------------------------------------------------------ real code
+
+static LOG: Mutex<Vec<String>> = Mutex::new(Vec::new());
+/// per-sender message counters (index 15 = messages injected before the run)
+static SERIAL: [AtomicU16; 16] = [const { AtomicU16::new(0) }; 16];
+
+fn next_serial(sender: usize) -> u16 {
+    let n = SERIAL[sender % 16].fetch_add(1, Ordering::SeqCst);
+    (sender as u16 % 16) * 4096 + n % 4096
+}
+
+fn log(module: &str, kind: &str, a: Option<u64>, b: Option<u64>) {
+    let t = SimTime::now().as_nanos();
+    let f = |v: Option<u64>| v.map(|v| v.to_string()).unwrap_or_else(|| "-".into());
+    LOG.lock().unwrap().push(format!("obs {module} {kind} {} {} {t}", f(a), f(b)));
+}
+
+fn run_actions(spec: &Arc<ModSpec>, hook: &str, key: u64, in_task: bool, joined: bool) {
+    let Some(list) = spec.acts.get(&(hook.to_string(), key)) else { return };
+    for a in list {
+        match a {
+            Action::Send(dst, delay, id) => {
+                if !spec.links.iter().any(|l| l == dst) {
+                    continue;
+                }
+                let serial = next_serial(spec.idx);
+                log(&spec.tag, "snd", Some(*id as u64), Some(serial as u64));
+                let msg = Message::default().id(*id).kind(serial);
+                let gate = format!("o_{dst}");
+                if *delay == 0 {
+                    send(msg, gate.as_str());
+                } else {
+                    send_in(msg, gate.as_str(), Duration::from_nanos(*delay));
+                }
+            }
+            Action::Sched(delay, id) => {
+                let serial = next_serial(spec.idx);
+                log(&spec.tag, "sch", Some(*id as u64), Some(serial as u64));
+                schedule_in(Message::default().id(*id).kind(serial), Duration::from_nanos(*delay));
+            }
+            Action::Spawn(tag, sleep, join) => {
+                let spec2 = spec.clone();
+                let (tag, sleep, join) = (*tag, *sleep, *join);
+                let h = tokio::spawn(async move {
+                    des::time::sleep(Duration::from_nanos(sleep)).await;
+                    log(&spec2.tag, "task", Some(tag), None);
+                    run_actions(&spec2, "task", tag, true, join);
+                });
+                if join {
+                    current().try_join(h);
+                }
+            }
+            Action::Shutdown => {
+                log(&spec.tag, "dwn", None, None);
+                current().shutdown()
+            }
+            Action::RestartIn(d) => {
+                log(&spec.tag, "dwn", Some(SimTime::now().as_nanos() as u64 + *d), None);
+                current().shutdow_and_restart_in(Duration::from_nanos(*d))
+            }
+            Action::RestartAt(t) => {
+                log(&spec.tag, "dwn", Some(*t), None);
+                current().shutdow_and_restart_at(SimTime::from_duration(Duration::from_nanos(*t)))
+            }
+            Action::Panic => {
+                log(&spec.tag, "pan", Some(in_task as u64), Some(joined as u64));
+                panic!("scripted panic")
+            }
+            Action::Log(n) => log(&spec.tag, "log", Some(*n), None),
+        }
+    }
+}
+
+struct Scripted {
+    spec: Arc<ModSpec>,
+}
+
+impl Module for Scripted {
+    fn reset(&mut self) {
+        log(&self.spec.tag, "reset", None, None);
+    }
+    fn num_sim_start_stages(&self) -> usize {
+        self.spec.stages
+    }
+    fn at_sim_start(&mut self, stage: usize) {
+        log(&self.spec.tag, "start", Some(stage as u64), None);
+        run_actions(&self.spec, "start", stage as u64, false, false);
+    }
+    fn handle_message(&mut self, msg: Message) {
+        let h = msg.header();
+        log(&self.spec.tag, "msg", Some(h.id as u64), Some(h.kind as u64));
+        let id = h.id as u64;
+        run_actions(&self.spec, "msg", id, false, false);
+    }
+    fn at_sim_end(&mut self) -> Result<(), RuntimeError> {
+        log(&self.spec.tag, "end", None, None);
+        run_actions(&self.spec, "end", 0, false, false);
+        Ok(())
+    }
+}
+
+fn simulate(sc: &Script) -> String {
+    LOG.lock().unwrap().clear();
+    for c in SERIAL.iter() {
+        c.store(0, Ordering::SeqCst);
+    }
+    let mut sim = Sim::new(());
+    for m in &sc.mods {
+        sim.node(m.tag.as_str(), Scripted { spec: Arc::new(m.clone()) });
+    }
+    for l in &sc.links {
+        let mut gates = vec![sim.gate(l.a.as_str(), &format!("o_{}", l.b))];
+        if let Some(t) = &l.via {
+            gates.push(sim.gate(t.as_str(), &format!("ti_{}_{}", l.a, l.b)));
+            gates.push(sim.gate(t.as_str(), &format!("to_{}_{}", l.a, l.b)));
+        }
+        gates.push(sim.gate(l.b.as_str(), &format!("i_{}", l.a)));
+        for k in 0..gates.len() - 1 {
+            let ch = match &l.chan {
+                Some(c) if c.pos == k => {
+                    let ch = Channel::new(ChannelMetrics::new(
+                        bitrate_of(c.tx).unwrap_or(0),
+                        Duration::from_nanos(c.lat),
+                        Duration::ZERO,
+                        if c.queue { ChannelDropBehaviour::Queue(None) } else { ChannelDropBehaviour::Drop },
+                    ));
+                    let tx = ch.calculate_busy(&Message::default()).as_nanos() as u64;
+                    if tx != c.tx {
+                        return format!("crash tx-mismatch:{}:{}", c.tx, tx);
+                    }
+                    Some(ch)
+                }
+                _ => None,
+            };
+            gates[k].clone().connect(gates[k + 1].clone(), ch);
+        }
+    }
+    let mut rt = Builder::seeded(1).quiet().max_itr(20_000).build(sim.freeze());
+    for m in &sc.mods {
+        if m.catch {
+            if let Some(module) = rt.app.globals().get(&ObjectPath::from(m.tag.as_str())) {
+                module.set_stereotyp(des::net::module::Stereotyp { on_panic_catch: true, ..des::net::module::Stereotyp::HOST });
+            }
+        }
+    }
+    for (m, id, time) in &sc.inits {
+        let Some(module) = rt.app.globals().get(&ObjectPath::from(m.as_str())) else { continue };
+        let serial = next_serial(15);
+        rt.handle_message_on(module, Message::default().id(*id).kind(serial), SimTime::from_duration(Duration::from_nanos(*time)));
+    }
+    match rt.run() {
+        Ok(_) => "ok".to_string(),
+        Err(e) => {
+            let mut s = String::from("err");
+            for x in e.iter() {
+                let any = x.as_any();
+                if let Some(p) = any.downcast_ref::<PanicError>() {
+                    write!(s, " panic:{}", p.path.as_str()).unwrap();
+                } else if let Some(j) = any.downcast_ref::<JoinError>() {
+                    let k = format!("{:?}", j.kind);
+                    let k = if k.starts_with("Paniced") { "join" } else if k.starts_with("NotFinished") { "unfinished" } else { "tokio" };
+                    write!(s, " {k}:{}", j.path.as_str()).unwrap();
+                } else {
+                    write!(s, " other").unwrap();
+                }
+            }
+            s
+        }
+    }
+}
+
+/// one run of the script: the log lines, the result line, the state of the globals afterwards
+pub(crate) fn run_once(sc: &Script, suffix: &str, out: &mut String) {
+    let res = guarded(|| simulate(sc));
+    for l in LOG.lock().unwrap().iter() {
+        match l.strip_prefix("obs ") {
+            Some(rest) => writeln!(out, "obs{suffix} {rest}").unwrap(),
+            None => writeln!(out, "{l}").unwrap(),
+        }
+    }
+    match res {
+        Ok(r) => writeln!(out, "res{suffix} {r}").unwrap(),
+        Err(p) => {
+            let p: String = p.chars().filter(|c| !c.is_whitespace()).take(60).collect();
+            writeln!(out, "res{suffix} crash {p}").unwrap()
+        }
+    }
+    let ctx = if try_current().is_none() { "free" } else { "held" };
+    writeln!(out, "glob{suffix} ctx={ctx}").unwrap();
+}
+
+pub(crate) fn exec_with(input: &str, twice: bool) -> String {
+    let mut out = String::new();
+    for (header, body) in cases(input) {
+        writeln!(out, "{header}").unwrap();
+        let body: Vec<String> = body
+            .into_iter()
+            .filter(|l| !l.starts_with("obs") && !l.starts_with("res") && !l.starts_with("glob"))
+            .collect();
+        for l in &body {
+            writeln!(out, "{l}").unwrap();
+        }
+        let sc = parse(&body);
+        run_once(&sc, "", &mut out);
+        if twice {
+            run_once(&sc, "2", &mut out);
+        }
+        writeln!(out, "end").unwrap();
+    }
+    out
+}
+
+pub fn exec(input: &str) -> String {
+    exec_with(input, false)
+}
+
+// ------------------------------------------------------------------------------------------ generator
+
+const DELAYS: [u64; 8] = [0, 0, 1, 2, 3, 5, 10, 1000];
+const SLEEPS: [u64; 6] = [1, 2, 3, 5, 10, 1000];
+const TIMES: [u64; 14] = [0, 0, 1, 2, 3, 5, 7, 10, 12, 15, 1000, 1001, 1005, 2000];
+
+/// `panics`: 0 = none (C09), otherwise the per-list chance (in 1/20) of a panic action (C13)
+pub(crate) fn gen_with(seed: u64, count: usize, thorough: bool, panics: u64) -> String {
+    let mut r = Rng::new(seed);
+    let mut out = String::new();
+    for k in 0..count {
+        writeln!(out, "case {k}").unwrap();
+        let nmods = r.range(2, if thorough { 5 } else { 4 }) as usize;
+        let mods: Vec<String> = (0..nmods).map(|i| format!("M{i}")).collect();
+        for m in &mods {
+            let stages = *r.pick(&[1u64, 1, 1, 2, 2, 3, 0]);
+            let catch = if panics > 0 && r.chance(1, 2) { 1 } else { 0 };
+            writeln!(out, "mod {m} stages={stages} catch={catch}").unwrap();
+        }
+        let mut links: Vec<(usize, usize)> = Vec::new();
+        for a in 0..nmods {
+            for b in 0..nmods {
+                if a == b || !r.chance(3, 4) {
+                    continue;
+                }
+                let via = if nmods >= 3 && r.chance(2, 5) {
+                    let others: Vec<usize> = (0..nmods).filter(|t| *t != a && *t != b).collect();
+                    format!("M{}", r.pick(&others))
+                } else {
+                    "-".to_string()
+                };
+                let nconn = if via == "-" { 1 } else { 3 };
+                let chan = if r.chance(2, 5) {
+                    format!("{}:{}:{}:{}", r.below(nconn), r.pick(&[0u64, 1, 3, 10]), r.pick(&[0u64, 4, 4, 1000]), r.pick(&["q", "d"]))
+                } else {
+                    "-".to_string()
+                };
+                writeln!(out, "link M{a} M{b} via={via} chan={chan}").unwrap();
+                links.push((a, b));
+            }
+        }
+        // ids and task tags share one ranked number space 1..=n; objects of rank >= safe never shut
+        // down, so the start stages (replayed by every restart) cannot cause another restart
+        let n = r.range(6, 12);
+        let safe = n - r.range(1, 3);
+        let emit = |r: &mut Rng, m: usize, lo: u64, may_down: bool, out: &mut String, hook: &str, key: u64| {
+            // lo = smallest id / tag this list may produce
+            if lo > n {
+                return;
+            }
+            let len = r.range(1, 4);
+            let panic_at = if panics > 0 && r.below(20) < panics { Some(r.below(len + 1)) } else { None };
+            for i in 0..=len {
+                if panic_at == Some(i) {
+                    writeln!(out, "act M{m} {hook} {key} panic").unwrap();
+                }
+                if i == len {
+                    break;
+                }
+                let dsts: Vec<usize> = links.iter().filter(|l| l.0 == m).map(|l| l.1).collect();
+                let x = r.below(20);
+                if x < 6 && !dsts.is_empty() {
+                    writeln!(out, "act M{m} {hook} {key} send M{} {} {}", r.pick(&dsts), r.pick(&DELAYS), r.range(lo, n)).unwrap();
+                } else if x < 9 {
+                    writeln!(out, "act M{m} {hook} {key} sched {} {}", r.pick(&DELAYS), r.range(lo, n)).unwrap();
+                } else if x < 13 && hook != "end" {
+                    let join = if r.chance(1, 2) { " join" } else { "" };
+                    writeln!(out, "act M{m} {hook} {key} spawn {} {}{join}", r.range(lo, n), r.pick(&SLEEPS)).unwrap();
+                } else if x < 17 && may_down {
+                    match r.below(6) {
+                        0 | 1 => writeln!(out, "act M{m} {hook} {key} shutdown").unwrap(),
+                        2 | 3 | 4 => writeln!(out, "act M{m} {hook} {key} restart_in {}", r.pick(&[0u64, 1, 2, 3, 5, 10, 1000])).unwrap(),
+                        _ => writeln!(out, "act M{m} {hook} {key} restart_at {}", r.pick(&[5u64, 12, 1000, 1005, 3000, 5000])).unwrap(),
+                    }
+                } else {
+                    writeln!(out, "act M{m} {hook} {key} log {}", r.below(100)).unwrap();
+                }
+            }
+        };
+        for m in 0..nmods {
+            for id in 1..=n {
+                if r.chance(3, 5) {
+                    emit(&mut r, m, id + 1, id < safe, &mut out, "msg", id);
+                }
+            }
+            for tag in 2..=n {
+                if r.chance(1, 2) {
+                    emit(&mut r, m, tag + 1, tag < safe, &mut out, "task", tag);
+                }
+            }
+            for stage in 0..3 {
+                if r.chance(1, 2) {
+                    emit(&mut r, m, safe, false, &mut out, "start", stage);
+                    if r.chance(1, 8) {
+                        // a plain shutdown in a start stage cannot loop
+                        writeln!(out, "act M{m} start {stage} shutdown").unwrap();
+                    }
+                }
+            }
+            if r.chance(1, 3) {
+                emit(&mut r, m, safe, false, &mut out, "end", 0);
+            }
+        }
+        let ninit = r.range(2, if thorough { 12 } else { 8 });
+        for _ in 0..ninit {
+            let m = r.below(nmods as u64);
+            let id = if r.chance(2, 3) { r.range(1, safe) } else { r.range(1, n) };
+            writeln!(out, "init M{m} {id} {}", r.pick(&TIMES)).unwrap();
+        }
+        writeln!(out, "end").unwrap();
+    }
+    out
+}
+
+pub fn gen(seed: u64, count: usize, thorough: bool) -> String {
+    gen_with(seed, count, thorough, 0)
 }
